@@ -375,6 +375,7 @@ void explore_spec(int si, int bound, double budget, SpecStats& st, Violation& vi
                 full.prefix_n.assign(r->n, r->n + r->nchoices);
                 int first_outcome = r->outcome;
                 std::string first_id = r->fail_id;
+                std::string first_msg = r->msg;
                 int mult = (first_outcome == OUT_STUCK || first_outcome == OUT_TIMEOUT) ? 8 : 1;
                 // wait until slot 0 is free: we are called from the completion handler, so run the
                 // confirmation on this very slot
@@ -397,8 +398,9 @@ void explore_spec(int si, int bound, double budget, SpecStats& st, Violation& vi
                     return;
                 }
                 ++st.inconclusive;
-                fprintf(stderr, "pmc: %s: outcome %s (%s) did not reproduce on replay (got %s %s)\n", sp.name,
-                    outcome_name(first_outcome).c_str(), first_id.c_str(), outcome_name(r2->outcome).c_str(), r2->fail_id);
+                if (st.inconclusive <= 3)
+                    fprintf(stderr, "pmc: %s: outcome %s (%s) did not reproduce on replay (got %s %s); first message: %.600s\n", sp.name,
+                        outcome_name(first_outcome).c_str(), first_id.c_str(), outcome_name(r2->outcome).c_str(), r2->fail_id, first_msg.c_str());
                 return;
             }
         }
@@ -704,6 +706,11 @@ extern "C" int pmc_main(int argc, char** argv, const pmc_config* cfg, const pmc_
         run_sync(si, it, 1, 1);
         pmc_exec_rec* r = g_slots[0].rec;
         printf("%.*s", r->trace_len, r->trace);
+        {
+            long kc[8] = {0}, alts[8] = {0};
+            for (int i = 0; i < r->nchoices; ++i) { kc[r->kind[i] & 7]++; alts[r->kind[i] & 7] += r->n[i] - 1; }
+            printf("choice kinds (count/alternatives): focus %ld/%ld block %ld/%ld yield %ld/%ld data %ld/%ld\n", kc[1], alts[1], kc[2], alts[2], kc[3], alts[3], kc[4], alts[4]);
+        }
         printf("run: spec=%s outcome=%s %s %s hash=%016llx choices=%s\n", specs[si].name, outcome_name(r->outcome).c_str(), r->fail_id, r->msg, (unsigned long long) r->hash, choices_str(r).c_str());
         stop_slots();
         return 0;
